@@ -1275,6 +1275,8 @@ def loop_must_call_census(ctx, crate, files):
             continue            # the loop is gone (rewritten as an adaptor chain, moved into a helper): no obligation here
         n += 1
         got = {nm for nm, t in cur[lk]}
+        # a loop-invariant call hoisted in front of the loop is still made
+        got |= (must_calls(crate, b, weighty_only=False) or set())
         # calls made inside a callee that is itself always called count as well
         for nm, t in cur[lk]:
             if t is not None:
@@ -1285,5 +1287,5 @@ def loop_must_call_census(ctx, crate, files):
             ctx.check(w in got, "skipped-iteration:%s:%s:%s" % (fkey(b), lk, w), "every iteration of the loop over %s in %s still calls %s" % (lk, short(b.id), w),
                       "an iteration of the loop over %s in %s can now go on to the next element without calling %s, which every iteration did in the reviewed tree: a `continue` / guard was put in front of the loop's work, so some elements are skipped" % (lk, short(b.id), w),
                       where_of(b))
-    if any(k.rsplit("@", 1)[0].rsplit("::", 1)[0] in files for k in ref):
-        ctx.floor("loops compared with the per-iteration must-call table", n, 1)
+    # (no floor: loops come and go with refactorings — a loop that is gone puts no obligation)
+    ctx.info("loops compared with the per-iteration must-call table: %d" % n)
